@@ -111,6 +111,10 @@ impl<'a> DisasmContext<'a> {
         }
         writeln_ignore!(output, "  .arity {}", func.arity);
         writeln_ignore!(output, "  .registers {}", func.num_registers);
+        // functions are listed in pre-order; the count lets the assembler rebuild the tree
+        if !func.nested_functions.is_empty() {
+            writeln_ignore!(output, "  .nested {}", func.nested_functions.len());
+        }
 
         // Output global names for ALL functions (needed for indexed global access and module loading)
         if !func.global_layout.names().is_empty() {
